@@ -498,4 +498,15 @@ def rmDemo : List (Tid × Nat) :=
 example : (RM.run RM.init rmDemo).map (fun s => (s.rets.map fun r => (r.tid, r.key, r.val), s.ncreate 2, s.res 2))
     = some ([(2, 2, 9), (0, 2, 9), (1, 2, 0), (0, 2, 0)], 1, some 9) := by decide
 
+/-! `Inject` (outside `RM.Reach`; what the code does): registered *before* any call it is simply the instance
+everyone gets and `create` never runs; registered *after* a successful create it replaces the stored instance, so
+later callers hold a different instance than earlier ones — `Inject` is a test hook, not covered by the property. -/
+example : ((RM.inject RM.init 2 5).bind fun s => RM.run s ([(0,2)] ++ List.replicate 16 (0,0))).map
+      (fun s => (s.rets.map fun r => (r.tid, r.key, r.val), s.ncreate 2))
+    = some ([(0, 2, 5)], 0) := by decide
+
+example : (((RM.run RM.init rmDemo).bind fun s => RM.inject s 2 5).bind fun s =>
+        RM.run s ([(3,2)] ++ List.replicate 16 (3,0))).map (fun s => s.rets.map fun r => (r.tid, r.key, r.val))
+    = some [(3, 2, 5), (2, 2, 9), (0, 2, 9), (1, 2, 0), (0, 2, 0)] := by decide
+
 end GoZero.C07
